@@ -56,36 +56,47 @@ Record rnode := {
   r_cfg : rcfg;
   r_open_sched : Z;
   r_sync : Z;                          (* tN2kSyncScheduler::SyncOffset *)
-  r_devinfo_changed : bool
+  r_devinfo_changed : bool;
+  r_clk : Z * Z                        (* RollCount and LastRead of N2kMillis64() in the 32-bit build (static locals of N2kTimer.cpp) *)
 }.
 Definition with_rn (r:rnode) (n:node) : rnode :=
   {| rn := n; rx_dev := rx_dev r; r_slots := r_slots r; r_q := r_q r; r_cfg := r_cfg r; r_open_sched := r_open_sched r; r_sync := r_sync r;
-     r_devinfo_changed := r_devinfo_changed r |}.
+     r_devinfo_changed := r_devinfo_changed r; r_clk := r_clk r |}.
 Definition with_slots (r:rnode) (s:list slot) : rnode :=
   {| rn := rn r; rx_dev := rx_dev r; r_slots := s; r_q := r_q r; r_cfg := r_cfg r; r_open_sched := r_open_sched r; r_sync := r_sync r;
-     r_devinfo_changed := r_devinfo_changed r |}.
+     r_devinfo_changed := r_devinfo_changed r; r_clk := r_clk r |}.
 Definition with_devx (r:rnode) (i:Z) (x:devx) : rnode :=
   {| rn := rn r; rx_dev := zset (rx_dev r) i x; r_slots := r_slots r; r_q := r_q r; r_cfg := r_cfg r; r_open_sched := r_open_sched r; r_sync := r_sync r;
-     r_devinfo_changed := r_devinfo_changed r |}.
+     r_devinfo_changed := r_devinfo_changed r; r_clk := r_clk r |}.
 Definition with_rxq (r:rnode) (q:list rxframe) : rnode :=
   {| rn := rn r; rx_dev := rx_dev r; r_slots := r_slots r; r_q := q; r_cfg := r_cfg r; r_open_sched := r_open_sched r; r_sync := r_sync r;
-     r_devinfo_changed := r_devinfo_changed r |}.
+     r_devinfo_changed := r_devinfo_changed r; r_clk := r_clk r |}.
 Definition with_open (r:rnode) (st:Z) (sched:Z) : rnode :=
   let n := rn r in
   {| rn := {| n_w64 := n_w64 n; n_mode := n_mode n; n_open := st; n_now := n_now n; n_pgn := n_pgn n; n_devs := n_devs n; n_q := n_q n; n_drv := n_drv n;
               n_addr_changed := n_addr_changed n |};
-     rx_dev := rx_dev r; r_slots := r_slots r; r_q := r_q r; r_cfg := r_cfg r; r_open_sched := sched; r_sync := r_sync r; r_devinfo_changed := r_devinfo_changed r |}.
+     rx_dev := rx_dev r; r_slots := r_slots r; r_q := r_q r; r_cfg := r_cfg r; r_open_sched := sched; r_sync := r_sync r; r_devinfo_changed := r_devinfo_changed r; r_clk := r_clk r |}.
 Definition with_sync (r:rnode) (s:Z) : rnode :=
   {| rn := rn r; rx_dev := rx_dev r; r_slots := r_slots r; r_q := r_q r; r_cfg := r_cfg r; r_open_sched := r_open_sched r; r_sync := s;
-     r_devinfo_changed := r_devinfo_changed r |}.
+     r_devinfo_changed := r_devinfo_changed r; r_clk := r_clk r |}.
 Definition with_devinfo_changed (r:rnode) : rnode :=
   {| rn := rn r; rx_dev := rx_dev r; r_slots := r_slots r; r_q := r_q r; r_cfg := r_cfg r; r_open_sched := r_open_sched r; r_sync := r_sync r;
-     r_devinfo_changed := true |}.
+     r_devinfo_changed := true; r_clk := r_clk r |}.
 Definition get_devx (r:rnode) (i:Z) : devx := znth (rx_dev r) i ddevx.
 Definition w64 (r:rnode) : bool := n_w64 (rn r).
 Definition now (r:rnode) : Z := n_now (rn r).
 Definition now32 (r:rnode) : Z := u32 (now r).
 Definition nslots (r:rnode) : Z := Z.of_nat (length (r_slots r)).
+
+Definition with_clk (r:rnode) (c:Z*Z) : rnode :=
+  {| rn := rn r; rx_dev := rx_dev r; r_slots := r_slots r; r_q := r_q r; r_cfg := r_cfg r; r_open_sched := r_open_sched r; r_sync := r_sync r;
+     r_devinfo_changed := r_devinfo_changed r; r_clk := c |}.
+(* N2kMillis64(): the 64-bit build reads the clock; the 32-bit build extends millis() with a roll counter that is only updated when called *)
+Definition millis64 (r:rnode) : rnode * Z :=
+  if w64 r then (r, now r) else
+  let n32 := now32 r in
+  let rolls := if snd (r_clk r) >? n32 then (fst (r_clk r) + 1) mod M32 else fst (r_clk r) in
+  (with_clk r (rolls, n32), rolls * M32 + n32).
 
 Definition rsend (r:rnode) (m:msg) (idev:Z) : rnode * list event * bool :=
   let '(n', ev, ok) := send_msg (rn r) m idev in (with_rn r n', ev, ok).
@@ -486,9 +497,11 @@ Definition send_heartbeat_dev (r:rnode) (i:Z) : rnode * list event :=
   let '(n1, started) := claim_started (rn r) i in
   let r := with_rn r n1 in
   if started then (r, []) else
+  let '(r, t1) := millis64 r in
   let x := get_devx r i in
-  if ss_is_time (now r) (x_hb x) then
-    let hb' := ss_update_next (now r) (r_sync r) (x_hb x) in
+  if ss_is_time t1 (x_hb x) then
+    let '(r, t2) := millis64 r in
+    let hb' := ss_update_next t2 (r_sync r) (x_hb x) in
     let r1 := with_devx r i {| x_pend_claim := x_pend_claim x; x_pend_prod := x_pend_prod x; x_pend_conf := x_pend_conf x; x_hb := hb'; x_hb_seq := x_hb_seq x; x_rx := x_rx x |} in
     let '(r2, ev, _) := rsend r1 (heartbeat_msg (dev_src r1 i) (ss_period hb') (x_hb_seq x)) i in
     let x2 := get_devx r2 i in
@@ -516,8 +529,9 @@ Fixpoint set_heartbeat_all (k:nat) (r:rnode) (i:Z) (interval offset:Z) : rnode :
       let interval2 := Z.max 1000 (Z.min interval1 c_MaxHeartbeatInterval) in
       let changed := negb (ss_period (x_hb x) =? interval2) || negb (ss_offset (x_hb x) =? offset1) in
       let r1 := if changed then
-                  with_devinfo_changed (with_devx r i {| x_pend_claim := x_pend_claim x; x_pend_prod := x_pend_prod x; x_pend_conf := x_pend_conf x;
-                                                          x_hb := ss_update_next (now r) (r_sync r) {| ss_next := ss_next (x_hb x); ss_offset := offset1; ss_period := interval2 |};
+                  let '(rc, t) := millis64 r in
+                  with_devinfo_changed (with_devx rc i {| x_pend_claim := x_pend_claim x; x_pend_prod := x_pend_prod x; x_pend_conf := x_pend_conf x;
+                                                          x_hb := ss_update_next t (r_sync rc) {| ss_next := ss_next (x_hb x); ss_offset := offset1; ss_period := interval2 |};
                                                           x_hb_seq := x_hb_seq x; x_rx := x_rx x |})
                 else r in
       set_heartbeat_all k' r1 (i+1) interval2 offset1
@@ -544,7 +558,8 @@ Definition open_step (r:rnode) : rnode * list event * bool :=
     if sched_is_time (w64 r0) (now r0) (r_open_sched r0) then
       let r1 := with_open r0 3 (r_open_sched r0) in
       let '(r2, ev) := start_claim_all (length (n_devs (rn r1))) r1 0 in
-      let r3 := with_sync r2 (now r2) in
+      let '(r2c, tsync) := millis64 r2 in
+      let r3 := with_sync r2c tsync in
       let r4 := set_heartbeat_all (length (n_devs (rn r3))) r3 0 c_DefaultHeartbeatInterval 10000 in
       (r4, ev ++ [EvNote 1], true)
     else (with_rxq r0 [], [], true).                                              (* "read rubbish out from CAN controller" *)
@@ -613,7 +628,7 @@ Definition cold_devx (w:bool) (rxl:list Z) : devx :=
 Definition cold_node (w:bool) (mode t0 qmax nsl:Z) (pc:pgncfg) (devs:list dev) (rxls:list (list Z)) (cfg:rcfg) : rnode :=
   {| rn := {| n_w64 := w; n_mode := mode; n_open := 0; n_now := t0; n_pgn := pc; n_devs := devs; n_q := sring_new qmax; n_drv := []; n_addr_changed := false |};
      rx_dev := map (cold_devx w) rxls; r_slots := repeat slot0 (Z.to_nat nsl); r_q := []; r_cfg := cfg;
-     r_open_sched := sched_from_now w t0 0; r_sync := 0; r_devinfo_changed := false |}.
+     r_open_sched := sched_from_now w t0 0; r_sync := 0; r_devinfo_changed := false; r_clk := (0, 0) |}.
 
 (* the harness' prelude for cases that start from an opened node: 700 x (ParseMessages; clock + 1 ms) with an accepting driver,
    heartbeat switched off unless asked for, IsAddressClaimStarted for every device, then the clock is set to the case's origin *)
